@@ -63,6 +63,42 @@ impl Scratch {
         self.path.join(name)
     }
 }
+impl Scratch {
+    /// Creates a named pipe in the scratch directory and a feeder thread that writes `bytes` into it once a reader
+    /// has opened it (gives up after 8 s if nobody does). Returns the path to hand to the tool.
+    pub fn fifo(&self, name: &str, bytes: &[u8]) -> PathBuf {
+        use std::os::unix::ffi::OsStrExt;
+        use std::os::unix::fs::OpenOptionsExt;
+        let p = self.path.join(name);
+        let c = std::ffi::CString::new(p.as_os_str().as_bytes()).unwrap();
+        unsafe {
+            libc::mkfifo(c.as_ptr(), 0o600);
+        }
+        let data = bytes.to_vec();
+        let path = p.clone();
+        std::thread::spawn(move || {
+            let start = Instant::now();
+            // opening a FIFO for writing without a reader fails with ENXIO in non-blocking mode: poll for the reader
+            let mut f = loop {
+                match std::fs::OpenOptions::new().write(true).custom_flags(libc::O_NONBLOCK).open(&path) {
+                    Ok(f) => break f,
+                    Err(_) if start.elapsed() < Duration::from_secs(8) => std::thread::sleep(Duration::from_millis(2)),
+                    Err(_) => return,
+                }
+            };
+            let mut off = 0;
+            while off < data.len() && start.elapsed() < Duration::from_secs(20) {
+                match f.write(&data[off..]) {
+                    Ok(n) => off += n,
+                    Err(e) if e.kind() == std::io::ErrorKind::WouldBlock => std::thread::sleep(Duration::from_micros(200)),
+                    Err(_) => return, // the reader went away
+                }
+            }
+        });
+        p
+    }
+}
+
 impl Drop for Scratch {
     fn drop(&mut self) {
         let _ = std::fs::remove_dir_all(&self.path);
@@ -227,6 +263,61 @@ impl<'a> Run<'a> {
             wall: start.elapsed(),
         }
     }
+}
+
+/// Runs the CLI with its standard output on a pseudo-terminal of `cols` columns (24 rows); `env` is added to the
+/// environment (e.g. COLUMNS). Returns what the tool wrote to the terminal (carriage returns removed) and its exit
+/// status; None when no pseudo-terminal could be opened.
+pub fn run_on_pty(args: &[String], cwd: &Path, cols: u16, env: &[(&str, String)]) -> Option<(Vec<u8>, Option<i32>)> {
+    use std::os::unix::io::FromRawFd;
+    let (mut master, mut slave) = (0 as libc::c_int, 0 as libc::c_int);
+    let mut ws = libc::winsize { ws_row: 24, ws_col: cols, ws_xpixel: 0, ws_ypixel: 0 };
+    let rc = unsafe { libc::openpty(&mut master, &mut slave, std::ptr::null_mut(), std::ptr::null_mut(), &mut ws) };
+    if rc != 0 {
+        return None;
+    }
+    let slave_out = unsafe { Stdio::from_raw_fd(libc::dup(slave)) };
+    let mut cmd = Command::new(cli_bin());
+    cmd.args(args).stdin(Stdio::null()).stdout(slave_out).stderr(Stdio::null()).current_dir(cwd).env("RUST_BACKTRACE", "0").env_remove("RUST_LOG").env_remove("NO_COLOR").env_remove("COLUMNS").env("TERM", "xterm-256color");
+    for (k, v) in env {
+        cmd.env(k, v);
+    }
+    let mut child = cmd.spawn().ok()?;
+    // the command object holds the duplicated slave descriptor: it must go, or the master never sees the terminal closed
+    drop(cmd);
+    unsafe {
+        libc::close(slave);
+    }
+    let mut mf = unsafe { std::fs::File::from_raw_fd(master) };
+    let (tx, rx) = std::sync::mpsc::channel::<Vec<u8>>();
+    std::thread::spawn(move || {
+        let mut out = Vec::new();
+        let mut buf = [0u8; 8192];
+        loop {
+            match mf.read(&mut buf) {
+                Ok(0) => break,
+                Ok(n) => out.extend_from_slice(&buf[..n]),
+                Err(_) => break, // EIO: the last writer closed the terminal
+            }
+        }
+        let _ = tx.send(out);
+    });
+    let start = Instant::now();
+    let status = loop {
+        match child.try_wait() {
+            Ok(Some(st)) => break st.code(),
+            Ok(None) if start.elapsed() > Duration::from_secs(20) => {
+                let _ = child.kill();
+                let _ = child.wait();
+                break None;
+            }
+            _ => std::thread::sleep(Duration::from_millis(2)),
+        }
+    };
+    // the reader ends when the terminal is closed; should a stray descriptor keep it open, give up after a while
+    let mut out = rx.recv_timeout(Duration::from_secs(5)).ok()?;
+    out.retain(|b| *b != b'\r');
+    Some((out, status))
 }
 
 /// Ignore SIGPIPE in this process (writing to a child's closed stdin must not kill the harness).
